@@ -4,7 +4,7 @@
 cd /verif && . ./env.sh
 go build -o bin/scioncheck ./cmd/scioncheck || exit 2
 claimed=$(python3 -c "import json;print(' '.join(c['property_id'] for c in json.load(open('MANIFEST.json'))['checks']))")
-for d in seeded/${1:-}*/; do
+for d in /verif/seeded/${1:-}*/; do
   id=$(basename $d); prop=${id%%-*}
   if ! git -C /repo diff --quiet; then echo "REPO DIRTY"; exit 3; fi
   if ! git -C /repo apply --check $d/patch.diff 2>/dev/null; then echo "$id NOAPPLY"; continue; fi
